@@ -17,7 +17,7 @@ import ast
 import torch
 from torch.autograd import Function
 
-from .qtensor import QTensor, qfallback
+from .qtensor import QTensor, functional_variant, qfallback
 from .qtype import qtypes
 
 
@@ -98,10 +98,32 @@ class QBytesTensor(QTensor):
         from .qbytes_ops import get_qbytestensor_op_dispatch
 
         # Do not use directly op, but rather its overload
-        op = op.overloadpacket
+        overload, op = op, op.overloadpacket
         # Look for a dispatched op accepting QBytesTensor inputs
         qdispatch = get_qbytestensor_op_dispatch(op)
         if qdispatch is not None:
             return qdispatch(*args, **kwargs)
+        if isinstance(args[0], QBytesTensor):
+            functional = functional_variant(overload)
+            if functional is not None:
+                # In-place operation: the fallback would only modify a dequantized copy of the Tensor
+                return args[0]._update(functional(*args, **(kwargs or {})))
         # No dispatch available: qfallback
         return qfallback(op, *args, **kwargs)
+
+    def _update(self, t):
+        """Replace the content of the Tensor by the content of a Tensor of the same shape, quantizing it if required"""
+        from .optimizers import AbsmaxOptimizer
+        from .quantizers import SymmetricQuantizer
+
+        if t.shape != self.shape:
+            raise NotImplementedError("In-place operations that modify the shape of a QBytesTensor are not supported.")
+        if not isinstance(t, QBytesTensor) or t.qtype != self.qtype or t.axis != self.axis or t.dtype != self.dtype:
+            if isinstance(t, QTensor):
+                t = t.dequantize()
+            t = t.to(self.dtype)
+            t = SymmetricQuantizer.apply(t, self.qtype, self.axis, AbsmaxOptimizer()(t, self.qtype.bits, self.axis))
+        # The inner tensors might be shared with other quantized tensors: they must not be modified
+        self._data = t._data
+        self._scale = t._scale
+        return self
